@@ -1371,15 +1371,61 @@ func (w *World) genBurst(r *Rng) *Event {
 		hit = total.QuoRaw(r.Range(2, 9)).AddRaw(r.Range(0, 3))
 	case 2:
 		hit = total.SubRaw(r.Range(1, 120))
+		if limit.LT(sdk.OneDec()) && r.Bool() {
+			// remainders of the size at which some orders' rests are still worth a quote unit and others' are not
+			per := sdk.OneDec().Quo(limit).TruncateInt64()
+			if per > 0 && per < 1_000_000_000 {
+				hit = total.SubRaw(r.Range(1, 8*per))
+			}
+		}
 	default:
 		hit = total.MulRaw(r.Range(1, 99)).QuoRaw(100)
 	}
 	if hit.LT(sdk.NewInt(100)) {
 		hit = sdk.NewInt(100)
 	}
+	aggressive := func() sdk.Dec {
+		p2 := limit
+		for j := int64(0); j < r.Range(1, 3); j++ {
+			if restBuy {
+				p2 = amm.DownTick(p2, prec)
+			} else {
+				p2 = amm.UpTick(p2, prec)
+			}
+		}
+		return p2
+	}
+	p1 := limit
+	if r.Intn(3) == 0 {
+		if q := aggressive(); q.IsPositive() {
+			p1 = q // the big taker crosses the resting tick; a later, smaller one sits exactly on it
+		}
+	}
 	taker := w.Actors[users[(start+n)%len(users)]]
-	if t := mk(taker, !restBuy, limit, hit, time.Duration(r.Range(0, 3))*time.Second); t != nil {
+	if t := mk(taker, !restBuy, p1, hit, time.Duration(r.Range(0, 3))*time.Second); t != nil {
 		evs = append(evs, t)
+	}
+	if !p1.Equal(limit) {
+		if t := mk(w.Actors[users[(start+n+1)%len(users)]], !restBuy, limit, hit.QuoRaw(r.Range(2, 20)).AddRaw(r.Range(100, 200)), time.Duration(r.Range(0, 3))*time.Second); t != nil {
+			evs = append(evs, t)
+		}
+	} else if r.Intn(2) == 0 {
+		// a second taker on a neighbouring, more aggressive tick: the batch then has a price direction and the
+		// tick-by-tick stage runs over what the single-price stage left on the resting tick
+		p2 := limit
+		for j := int64(0); j < r.Range(1, 3); j++ {
+			if restBuy {
+				p2 = amm.DownTick(p2, prec)
+			} else {
+				p2 = amm.UpTick(p2, prec)
+			}
+		}
+		a2 := hit.QuoRaw(r.Range(2, 20)).AddRaw(r.Range(100, 200))
+		if p2.IsPositive() {
+			if t := mk(w.Actors[users[(start+n+1)%len(users)]], !restBuy, p2, a2, time.Duration(r.Range(0, 3))*time.Second); t != nil {
+				evs = append(evs, t)
+			}
+		}
 	}
 	evs = append(evs, &Event{Kind: "block", Tag: "block", GapS: r.Range(1, 3), N: 1})
 	first := evs[0]
